@@ -156,7 +156,7 @@ def evalBtc (testnet : Bool) (s : Bytes) : Eval :=
   let hrp := if testnet then "tb" else "bc"
   if s.head? = some 0x6a then
     let payload := match ((instrs s)[1]? : Option (Option Ins)) with
-      | some (some (Ins.push d)) => if (ByteArray.mk d.toArray).validateUTF8 then d else []
+      | some (some (Ins.push d)) => if L.valid d then d else []
       | _ => []
     ⟨.opReturn payload, none⟩
   else if unspendableFirst s then ⟨.unspendable, none⟩
